@@ -99,6 +99,40 @@ class MonEnv(Environment):
     template_class = MonTemplate
 
 
+# the same hook on liquid.future.Environment's own context and template classes (every third case runs there)
+from liquid.context import FutureContext as _FutureContext  # noqa: E402
+from liquid.future import Environment as _FutureEnvironment  # noqa: E402
+from liquid.template import FutureBoundTemplate as _FutureBoundTemplate  # noqa: E402
+
+
+class MonFutureContext(_FutureContext):
+    __slots__ = ()
+
+    def assign(self, key: str, val: Any) -> None:
+        try:
+            super().assign(key, val)
+        except BaseException:
+            lim = HOOK["limit"]
+            if lim and chain_size(self) > lim and HOOK["held_after_refusal"] is None:
+                HOOK["held_after_refusal"] = (key, chain_size(self), lim)
+            raise
+        HOOK["assigns"] += 1
+        HOOK["future_assigns"] = HOOK.get("future_assigns", 0) + 1
+        size = chain_size(self)
+        HOOK["max_size"] = max(HOOK["max_size"], size)
+        lim = self.env.local_namespace_limit
+        if lim is not None and HOOK["limit"] is not None and size > HOOK["limit"]:
+            HOOK["broken"] = (key, size, HOOK["limit"])
+
+
+class MonFutureTemplate(_FutureBoundTemplate):
+    context_class = MonFutureContext
+
+
+class MonFutureEnv(_FutureEnvironment):
+    template_class = MonFutureTemplate
+
+
 _installed = False
 
 
@@ -117,7 +151,7 @@ def finish(ctx: core.Ctx) -> None:
 
 def make(case, mode: str, limits: dict[str, Any]):
     cfg = {"mode": mode, "limits": limits}
-    return drv.make_env(cfg, loader=DictLoader(dict(case["partials"])), base=MonEnv)
+    return drv.make_env(cfg, loader=DictLoader(dict(case["partials"])), base=MonFutureEnv if case.get("future") else MonEnv)
 
 
 HEAVY = {"output_stream_limit": 4_000_000, "loop_iteration_limit": 300_000, "local_namespace_limit": 4_000_000}
@@ -320,11 +354,21 @@ def nested_buffer_cases():
 
 
 def cases(ctx: core.Ctx):
+    for c in _cases(ctx):
+        yield c
+        if c.get("twin_future"):
+            yield dict({k: v for k, v in c.items() if k != "twin_future"}, future=True)
+
+
+def _cases(ctx: core.Ctx):
     for h in HAND:
-        yield dict(h, data=V.enc({"s": "日本語😀"}))
+        yield dict(h, data=V.enc({"s": "日本語😀"}), twin_future=True)
     for gi, c in enumerate(nested_buffer_cases()):
         if gi % ctx.nshards == ctx.shard:
-            yield dict(c, data=V.enc({"s": "日本😀"}))
+            yield dict(c, data=V.enc({"s": "日本😀"}), twin_future=gi % 2 == 0)
     rng = ctx.rng("cases")
     for i in range(ctx.budget(1500, 300_000)):
-        yield gen_chain_case(rng) if i % 4 == 1 else gen_case(rng)
+        c = gen_chain_case(rng) if i % 4 == 1 else gen_case(rng)
+        if i % 3 == 2:
+            c["future"] = True
+        yield c
